@@ -804,7 +804,7 @@ impl fmt::Debug for SystemHardware {
     }
 }
 
-#[cfg(all(folo_verif, target_os = "linux"))]
+#[cfg(all(folo_verif, target_os = "linux", not(miri)))]
 impl SystemHardware {
     /// Verification hook: hardware discovered by the real Linux platform code over a simulated
     /// filesystem and simulated scheduler bindings.
